@@ -903,8 +903,21 @@ func executePlannedSelection(eCtx *executionContext, sp *selectionPlan, source i
 // coercion.
 func resolvePlannedField(eCtx *executionContext, parentType *Object, source interface{}, fp *fieldPlan, path *ResponsePath) (result interface{}, ok bool) {
 	var returnType Output
+	var resolveFieldFinishFn resolveFieldFinishFuncHandler
+	resolving := false
 	defer func() {
 		if r := recover(); r != nil {
+			if resolving && resolveFieldFinishFn != nil {
+				// the resolver itself panicked: the resolve phase the
+				// extensions were told about still has to be finished
+				resolveErr, isErr := r.(error)
+				if !isErr {
+					resolveErr = fmt.Errorf("%v", r)
+				}
+				if extErrs := resolveFieldFinishFn(nil, resolveErr); len(extErrs) != 0 {
+					eCtx.Errors = append(eCtx.Errors, extErrs...)
+				}
+			}
 			// a failed field contributes null, never the value the resolver
 			// may have returned together with its error
 			result = nil
@@ -953,7 +966,6 @@ func resolvePlannedField(eCtx *executionContext, parentType *Object, source inte
 	// Extensions allocate a per-field map + closure even when none are
 	// registered. Skip entirely on the common no-extensions schema —
 	// saves ~22% of allocs per resolved field on hot paths.
-	var resolveFieldFinishFn resolveFieldFinishFuncHandler
 	if len(eCtx.Schema.extensions) > 0 {
 		var extErrs []gqlerrors.FormattedError
 		extErrs, resolveFieldFinishFn = handleExtensionsResolveFieldDidStart(eCtx.Schema.extensions, eCtx, &info)
@@ -963,12 +975,14 @@ func resolvePlannedField(eCtx *executionContext, parentType *Object, source inte
 	}
 
 	var resolveFnError error
+	resolving = true
 	result, resolveFnError = resolveFn(ResolveParams{
 		Source:  source,
 		Args:    args,
 		Info:    info,
 		Context: eCtx.Context,
 	})
+	resolving = false
 
 	if resolveFieldFinishFn != nil {
 		extErrs := resolveFieldFinishFn(result, resolveFnError)
